@@ -16,6 +16,9 @@ EXTENDS Integers, Sequences, FiniteSets, TLC
 (*   ofn     output-filename, "" = not set                                                   *)
 (*   banks   number of banks the program defines (0 = only the default bank)                 *)
 (*   imports does the entry file import inc.asm (which emits bytes)                          *)
+(*   cwd     where the command is started: the project root or a subdirectory of it (the     *)
+(*           root is found by walking up to the nearest mos.toml; outputs do not move)         *)
+(*   style   --error-style: how diagnostics are printed (never whether, nor where they point)  *)
 CONSTANTS Cfgs
 Steps == <<"config", "mkdir", "parse", "codegen", "checkformat", "merge", "writebanks", "writelisting", "writesymbols", "done">>
 FailPoints == {"none", "config", "parse", "codegen", "merge", "io"}
